@@ -9,6 +9,7 @@ import PyCraft.Drive.Frame
 import PyCraft.Drive.Trackers
 import PyCraft.Drive.Login
 import PyCraft.Drive.Play
+import PyCraft.Drive.Versions
 /-!
 Line-protocol driver over the executable definitions of the models.  One request per line, tokens
 separated by single spaces, byte strings hex-encoded (`-` = empty).  One canonical reply per line.
@@ -16,7 +17,7 @@ Anything unparsable yields `bad-op` (never a default value).
 -/
 open PyCraft PyCraft.Drive
 
-def handlers : List (List String → Option String) := [varint, mchash, position, auth, cfb8, dispatch, negotiate, Drive.frame, trackers, login, play]
+def handlers : List (List String → Option String) := [varint, mchash, position, auth, cfb8, dispatch, negotiate, Drive.frame, trackers, login, play, versions]
 
 def handle (toks : List String) : String :=
   match handlers.findSome? (· toks) with
